@@ -632,6 +632,8 @@ htp_status_t htp_tx_req_process_body_data_ex(htp_tx_t *tx, const void *data, siz
             if (tx->connp->req_decompressor == NULL)
                 return HTP_ERROR;
 
+            // The callback charges the time spent since time_before.
+            gettimeofday(&tx->connp->req_decompressor->time_before, NULL);
             // Send data buffer to the decompressor.
             htp_gzip_decompressor_decompress(tx->connp->req_decompressor, &d);
 
